@@ -155,3 +155,81 @@ class CaptureFreedom(Lemma):
                                       z3.PrefixOf(z3.Concat(z3.StringVal("_filt_"), prefix, us), n))
         return [("a rule pattern not starting with '_' selects no injected filter detection", [z3.Not(z3.PrefixOf(us, p)), injected], z3.Not(selected(p, n))),
                 ("a rewritten filter pattern selects only names with this application's prefix", [lit_prefix_axiom, z3.Not(z3.Contains(prefix, z3.StringVal("*"))), selected(z3.Concat(z3.StringVal("_filt_"), prefix, us, tok), n)], injected)]
+
+
+@register
+class ApplyOnRuleApplicable(Contract):
+    """a filter that applies: the rule gains the filter's detections under a fresh '_filt_<random>_' prefix and every condition becomes
+    '(rule condition) and (rewritten filter condition)'; the inserted detections are the RULE'S OWN objects - nothing mutable is shared
+    with the filter (which is applied to the next rule, too): not the detections, not the items, not their value lists, not their record of
+    applied processing items"""
+    id = "C11.SigmaFilter.apply_on_rule[applicable]"
+    target = "sigma.filters:SigmaFilter.apply_on_rule"
+    props = ("C11", "C15", "C08")
+    assumed = ["random.choices yields some text; re.sub rewrites the filter condition (bounded stand-in C11.bounded.filters); SigmaDetections.__post_init__ (re-parse) abstract",
+               "copy.copy / copy.deepcopy by their library contracts"]
+
+    def setup(self, E):
+        E.summaries["sigma.filters:SigmaFilter._should_apply_on_rule"] = lambda I, so, a, k: True
+        E.externals["random.choices"] = lambda I, a, k: [I.fresh("rnd", "str")]
+        E.externals["re.sub"] = lambda I, a, k: I.fresh("rewritten_filter_condition", "str")
+        E.summaries["sigma.rule.detection:SigmaDetections.__post_init__"] = lambda I, so, a, k: so.ghost.__setitem__("reparsed", True)
+
+    def args(self, I):
+        idx = I.E.index
+        D, IT = idx.lookup("sigma.rule.detection:SigmaDetection"), idx.lookup("sigma.rule.detection:SigmaDetectionItem")
+        S = idx.lookup("sigma.types:SigmaString")
+
+        def mkitem(f):
+            v = SObj(S, {"s": [f], "original": f}, lazy=False)
+            return SObj(IT, {"field": f, "modifiers": [], "value": [v], "original_value": [v], "applied_processing_items": set(), "parent": None, "source": None, "value_linking": None, "negated": False}, lazy=False)
+        nested = SObj(D, {"detection_items": [mkitem("n")], "item_linking": None, "parent": None, "source": None}, lazy=False)
+        fdet = SObj(D, {"detection_items": [mkitem("User"), nested], "item_linking": None, "parent": None, "source": None}, lazy=False)
+        gf = SObj(idx.lookup("sigma.filters:SigmaGlobalFilter"), {"detections": {"adm": fdet}, "condition": ["not adm"]}, lazy=True)
+        me = SObj(idx.lookup("sigma.filters:SigmaFilter"), {"filter": gf}, lazy=True)
+        rdet = SObj(idx.lookup("sigma.rule.detection:SigmaDetections"), {"detections": {"sel": SObj(D, {"detection_items": [mkitem("f")], "item_linking": None, "parent": None, "source": None})}, "condition": ["sel", "not sel"]}, lazy=True)
+        rule = SObj(idx.lookup("sigma.rule.rule:SigmaRule"), {"detection": rdet}, lazy=True)
+        return {"self": me, "args": [rule], "rule": rule, "fdet": fdet, "rdet": rdet}
+
+    def post(self, I, inp, r):
+        c, rdet = I.ctx, inp["rule"].fields["detection"]
+        c.require(r is inp["rule"], "the rule itself is returned")
+        dets = rdet.fields["detections"]
+        new = [(k, v) for k, v in dets.items() if k != "sel"]
+        c.require(len(new) == 1 and "sel" in dets, "the rule keeps its detections and gains one per filter detection")
+        if len(new) == 1:
+            name, det = new[0]
+            c.require(ops.kind_of(name) == "str", "under a generated name")
+            mut_old = set()
+
+            def collect(v, acc):
+                if isinstance(v, SObj):
+                    if id(v) in acc:
+                        return
+                    if isinstance(v.cls, ClassInfo) and v.cls.name in ("SigmaDetection", "SigmaDetectionItem"):
+                        acc.add(id(v))
+                    for x in v.fields.values():
+                        collect(x, acc)
+                elif isinstance(v, (list, set, dict)):
+                    acc.add(id(v))
+                    for x in (v.values() if isinstance(v, dict) else v):
+                        collect(x, acc)
+                elif isinstance(v, tuple):
+                    for x in v:
+                        collect(x, acc)
+            collect(inp["fdet"], mut_old)
+            mut_new = set()
+            collect(det, mut_new)
+            c.require(det is not inp["fdet"] and not (mut_old & mut_new), "no detection, detection item or mutable container (value list, modifiers, set of applied items) of the filter is shared with the rule", kind="FRAME")
+            # structure is preserved
+            ok = isinstance(det, SObj) and isinstance(det.fields.get("detection_items"), list) and len(det.fields["detection_items"]) == 2
+            c.require(ok and det.fields["detection_items"][0].fields.get("field") == "User", "the copy has the filter detection's items")
+        conds = rdet.fields["condition"]
+        c.require(isinstance(conds, list) and len(conds) == 2 and all(ops.kind_of(x) == "str" for x in conds), "every condition of the rule is rewritten")
+        if isinstance(conds, list) and len(conds) == 2:
+            for old, cur in zip(("sel", "not sel"), conds):
+                c.require(z3.And(z3.PrefixOf(z3.StringVal(f"({old}) and ("), mk_str(cur)), z3.SuffixOf(z3.StringVal(")"), mk_str(cur))), f"'({old}) and (<rewritten filter condition>)'")
+        c.require(rdet.ghost.get("reparsed") is True, "the conditions are parsed again")
+
+    def frame_ok(self, I, inp, obj, name):
+        return obj is inp["rule"].fields["detection"] or name in ("parent",)
